@@ -299,10 +299,13 @@ class SoftTTLCache(Entity):
             self._coalesced_requests += 1
             # Wait for backing store latency (simulating waiting for the refresh)
             yield self._backing_store.read_latency
-            # Check if the refresh completed
-            if key in self._cache:
-                return self._cache[key].value
-            return None
+            # Serve what the refresh produced, but only if it is within the
+            # hard TTL: a refresh that found nothing leaves the expired entry
+            # in place, and that entry must not be served.
+            entry = self._cache.get(key)
+            if entry is not None and entry.is_valid(self.now, self._hard_ttl):
+                return entry.value
+            # Otherwise fall through to a blocking fetch.
 
         # Fetch from backing store (blocking)
         value = yield from self._backing_store.get(key)
